@@ -30,11 +30,17 @@ RULE = ('Every NaN mask of the n_cond*(n_cond-1)/2 entries leaving >= 3 entries 
         '(64 x 64) and every triple of masks of <= 2 entries x 6 weight forms.  Two-call sequences sharing one '
         'caller-owned array: RDMs.mean with the same weights array on two stacks (every ordered pair of 16 / 27 '
         'stack mask configurations x 7 array forms), compare / pool_rdm / fit_regress with the same sigma_k on '
-        'two common masks (every ordered pair of 22 / 11 masks); after EVERY library call every array or RDMs '
+        'two common masks (every ordered pair of 22 / 11 masks); rescale on every covering x 3 methods x 6 '
+        'value kinds (positive / small-negative crossnobis-like / mixed-sign / all-negative templates with '
+        'proportional parts, independent positive and sign-consistent signed parts); every second generic fill '
+        'of pool / noise ceiling / fit / mean is signed; after EVERY library call every array or RDMs '
         'argument must be bit-identical (modifies-argument).  One evaluation = one library '
         'call judged against the reference on the entry-deleted vectors (or judged to raise).  Non-trivial = '
         'the measure is defined on the deleted vectors; distinct = distinct case descriptor.')
 ASSUMPTIONS = [
+    'a negative dissimilarity is a value (cross-validated estimates), only NaN is a missing entry; independent '
+    'signed parts given to rescale agree on the sign of every pair (parts contradicting each other in sign have '
+    'no common scale and the iteration need not terminate: measured, 13 of 636 such calls ran > 1 s)',
     'an argument counts as unchanged when its bytes are (ndarray: dtype, shape, buffer; RDMs: the '
     'dissimilarities buffer; list: repr); descriptor dictionaries of RDMs arguments are C12 business',
     'reference definitions in mc/ref/measures.py and mc/ref/c13_ref.py are correct; the pooling / regression '
@@ -83,6 +89,13 @@ WKINDS = ['none', 'name', 'rdm1d', 'rdmcol', 'rdmfull', 'entry']
 WCLASS = {'none': 'none', 'name': 'descriptor-name', 'rdm1d': 'per-rdm-1d-array',
           'rdmcol': 'per-rdm-array', 'rdmfull': 'per-rdm-array', 'entry': 'per-entry-array'}
 RESCALE = ['evidence', 'setsize', 'simple']
+# value kinds of the partial RDMs handed to rescale ('proportional*': every part is a positive multiple of
+# the restriction of ONE template RDM; 'generic*': independent values).  Dissimilarity estimates can be
+# negative (cross-validated distances), a negative number is a value, not a missing entry:
+# -crossnobis: positive template with a few small negative entries; -signed: entries of both signs and
+# sizes; -negative: every entry negative.  Every covering meets every kind (in one of its two orders).
+RESCALE_VALS = {'asc': ['proportional', 'generic', 'proportional-crossnobis'],
+                'desc2': ['proportional-signed', 'proportional-negative', 'generic-signed']}
 SUBSETS4 = [list(s) for k in (2, 3, 4) for s in itertools.combinations(range(4), k)]
 
 
@@ -389,7 +402,7 @@ def run_shard(shard, ctx):
             sig_kinds = ['none', 'vector', 'matrix']
         for mask in masks:
             for n_rdm in ((2, 3) if kind == 'pool' else (3, 4)):
-                for f in ['tie'] + ['pos%d' % i for i in range(fills)]:
+                for f in ['tie'] + [_fillname(i) for i in range(fills)]:
                     for s in sig_kinds:
                         c = {'kind': kind, 'n_cond': n, 'method': shard['method'], 'mask': mask,
                              'n_rdm': n_rdm, 'vals': f}
@@ -404,7 +417,7 @@ def run_shard(shard, ctx):
             if len(set(idx)) < n:
                 for f in range(fills):
                     run_case({'kind': 'cvnc', 'n_cond': n, 'method': shard['method'], 'idx': idx,
-                              'vals': 'pos%d' % f}, ctx)
+                              'vals': _fillname(f)}, ctx)
     elif kind == 'fit':
         n = shard['n_cond']
         for mask in all_masks(n, tier)[shard['masks'][0]:shard['masks'][1]]:
@@ -413,7 +426,7 @@ def run_shard(shard, ctx):
                     for f in range(fills):
                         run_case({'kind': 'fit', 'n_cond': n, 'method': shard['method'], 'sigma': shard['sigma'],
                                   'mask': mask, 'n_model': n_model, 'n_data': n_data, 'ridge': ridge,
-                                  'vals': 'pos%d' % f}, ctx)
+                                  'vals': _fillname(f)}, ctx)
     elif kind == 'fitboot':
         n = shard['n_cond']
         for code in range(n ** n):
@@ -436,7 +449,7 @@ def run_shard(shard, ctx):
             for b in range(64):
                 for w in WKINDS:
                     run_case({'kind': 'mean', 'n_cond': 4, 'masks': [subsets[a], subsets[b]], 'weights': w,
-                              'vals': 'pos%d' % ((a + b) % fills)}, ctx)
+                              'vals': _fillname((a + b) % fills)}, ctx)
     elif kind == 'mean3':
         subsets = [list(m) for m in combi.masks(6, 6)][:shard['n_masks']]
         a = shard['first']
@@ -444,7 +457,7 @@ def run_shard(shard, ctx):
             for c in range(len(subsets)):
                 for w in WKINDS:
                     run_case({'kind': 'mean', 'n_cond': 4, 'masks': [subsets[a], subsets[b], subsets[c]],
-                              'weights': w, 'vals': 'pos%d' % ((a + b + c) % fills)}, ctx)
+                              'weights': w, 'vals': _fillname((a + b + c) % fills)}, ctx)
     elif kind == 'meanshape':
         n = shard['n_cond']
         L = combi.n_pairs(n)
@@ -496,7 +509,7 @@ def run_shard(shard, ctx):
                             run_case(dict(base, op='compare', method=m, sigma=s, vals='generic'), ctx)
                     if allp == 'none':
                         for meth in RESCALE:
-                            for v in ('proportional', 'generic'):
+                            for v in RESCALE_VALS[order]:
                                 run_case(dict(base, op='rescale', rescale=meth, vals=v), ctx)
     elif kind == 'partials_common':
         for sub in SUBSETS4:
@@ -506,6 +519,12 @@ def run_shard(shard, ctx):
                 run_case({'kind': 'partials_common', 'subset': sub, 'method': m, 'sigma': s}, ctx)
     else:
         raise ValueError(kind)
+
+
+def _fillname(i):
+    """generic value fills: positive, SIGNED (dissimilarity estimates such as crossnobis can be negative; a
+    negative number is a value, never a missing entry), positive"""
+    return ['pos0', 'gen0', 'pos1'][i]
 
 
 def _decode_idx(code, n):
@@ -1166,6 +1185,20 @@ def _partial_objects(ctx, case, proportional):
     parts = case['parts']
     g = rng_for(ctx.seed, 'c13part', len(parts), sum(map(sum, parts)))
     full = np.round(g.uniform(0.3, 3.0, size=6), 4)
+    vk = case.get('vals', 'generic')
+    if vk.endswith('-crossnobis'):
+        # two of the six entries become small negative numbers (which ones depends on the covering)
+        neg = g.choice(6, size=2, replace=False)
+        full[neg] = -np.round(g.uniform(0.3, 0.8, size=2), 4)
+    elif vk.endswith('-signed'):
+        sign = np.where(g.uniform(size=6) < 0.5, -1.0, 1.0)
+        sign[int(g.integers(6))] = -1.0
+        full = full * sign
+        look_sign = {}
+        for k, (a, b) in enumerate(combi.pair_index(4)):
+            look_sign[frozenset((a, b))] = sign[k]
+    elif vk.endswith('-negative'):
+        full = -full
     look = {}
     for k, (a, b) in enumerate(combi.pair_index(4)):
         look[frozenset((a, b))] = full[k]
@@ -1178,7 +1211,13 @@ def _partial_objects(ctx, case, proportional):
         if proportional:
             vals = [scales[r] * look[frozenset((order[a], order[b]))] for a, b in combi.pair_index(len(order))]
         else:
-            vals = list(np.round(g.uniform(0.3, 3.0, size=combi.n_pairs(len(order))), 4))
+            vals = np.round(g.uniform(0.3, 3.0, size=combi.n_pairs(len(order))), 4)
+            if vk.endswith('-signed'):
+                # independent sizes, but every RDM agrees on the sign of a pair (RDMs that contradict each
+                # other in sign have no common scale to converge to and the iteration need not terminate)
+                vals = vals * np.array([look_sign[frozenset((order[a], order[b]))]
+                                        for a, b in combi.pair_index(len(order))])
+            vals = list(vals)
         objs.append(RDMs(np.array([vals], dtype=float),
                          pattern_descriptors={'conds': ['c%d' % c for c in order]},
                          rdm_descriptors={'w': [1.0 + r]}))
@@ -1198,7 +1237,7 @@ def _case_partials(case, ctx):
     from rsatoolbox.rdm import compare
     from rsatoolbox.rdm.combine import from_partials, rescale
     op = case['op']
-    objs, spec, all_conds = _partial_objects(ctx, case, case['vals'] == 'proportional')
+    objs, spec, all_conds = _partial_objects(ctx, case, case['vals'].startswith('proportional'))
     want = np.array([R.embed_partial(v, o, all_conds) for v, o in spec])
     kw = {'all_patterns': ['c%d' % c for c in all_conds]} if case['all_patterns'] == 'given' else {}
     try:
@@ -1249,6 +1288,8 @@ def _case_partials(case, ctx):
                     rdm1=fp, sigma_k=kwc.get('sigma_k'))
     elif op == 'rescale':
         tag = 'rescale|method=%s' % case['rescale']
+        if bool((D < 0).any()):
+            ctx.count('rescale:stack-with-negative-entries')
         with ctx.guard(tag, case):
             ctx.case(case)
             try:
@@ -1279,7 +1320,18 @@ def _case_partials(case, ctx):
                 elif not j['c'] > 0:
                     ctx.fail(tag + '|constant-not-positive', dict(case, rdm=r), 'constant %r' % j['c'])
             present = [set(np.flatnonzero(~np.isnan(r)).tolist()) for r in D]
-            if case['vals'] == 'proportional' and masks_kept:
+            # rescalingWeights: one weight per entry the RDM has, none where it has no entry
+            W = out.rdm_descriptors.get('rescalingWeights')
+            try:
+                W = np.asarray(W, dtype=float)
+            except (TypeError, ValueError):
+                W = None
+            if W is None or W.shape != D.shape:
+                ctx.fail(tag + '|rescalingWeights-missing-or-misshaped', case, 'rescalingWeights %r' % (W,))
+            elif not np.array_equal(np.isfinite(W), ~np.isnan(D)):
+                ctx.fail(tag + '|rescalingWeights-not-finite-exactly-where-the-RDM-has-an-entry', case,
+                         'weights %s for RDMs %s' % (W.tolist(), D.tolist()))
+            if case['vals'].startswith('proportional') and masks_kept:
                 # a common scale is observable on the entries two RDMs share (whole covering if it is
                 # connected by shared pairs, else inside each connected group)
                 ctx.count('rescale:overlap-connected' if R.overlap_connected(present)
